@@ -231,3 +231,284 @@ Proof.
     destruct (resolve_name RCommon cdefs edefs ns n); reflexivity.
   - destruct (resolve_name RBoth cdefs edefs ns n); reflexivity.
 Qed.
+
+(* ==========================================================================================
+   The positive direction, at the level of TYPES: a type written in the Cedar syntax (`cedar_form`) is
+   qualified and converted to the same validator type as the original, under the exact side conditions. *)
+
+(* ---- equations of `conv` (the nested fixpoint never has to be unfolded below) *)
+Fixpoint conv_attrs (fuel : nat) (cd : list (name * tyx)) (l : list (str * (tyx * bool))) : sres attrs_ty :=
+  match l with
+  | [] => SOk []
+  | (k, (a, r)) :: l' => sdo x <- conv fuel cd a; sdo rest <- conv_attrs fuel cd l'; SOk ((k, (x, r)) :: rest)
+  end.
+
+Lemma conv_prim fuel cd p :
+  conv fuel cd (XPrim p) = SOk (match p with PLong => TLong | PString => TString | PBool => TBool BAny end).
+Proof. destruct fuel, p; reflexivity. Qed.
+Lemma conv_ext fuel cd n :
+  conv fuel cd (XExt n) = if mem_str n ext_names then SOk (TExt [n]) else SErr SUnknownExtensionType.
+Proof. destruct fuel; reflexivity. Qed.
+Lemma conv_set fuel cd e : conv fuel cd (XSet e) = sdo x <- conv fuel cd e; SOk (ty_set x).
+Proof. destruct fuel; reflexivity. Qed.
+Lemma conv_entity fuel cd n :
+  conv fuel cd (XEntity n) = if is_reserved n then SErr SReservedName else SOk (ty_entity n).
+Proof. destruct fuel; reflexivity. Qed.
+Lemma conv_common fuel cd n :
+  conv fuel cd (XCommon n) =
+  match assoc_name n cd with
+  | Some b => match fuel with O => SErr SOutOfFuel | S f => conv f cd b end
+  | None => SErr SInvariant
+  end.
+Proof. destruct fuel; reflexivity. Qed.
+Lemma conv_eoc fuel cd n :
+  conv fuel cd (XEoc n) =
+  match assoc_name n cd with
+  | Some b => match fuel with O => SErr SOutOfFuel | S f => conv f cd b end
+  | None => if is_reserved n then SErr SReservedName else SOk (ty_entity n)
+  end.
+Proof. destruct fuel; reflexivity. Qed.
+Lemma conv_record fuel cd attrs o :
+  conv fuel cd (XRecord attrs o) = sdo a <- conv_attrs fuel cd attrs; SOk (TRecord (sort_assoc a) o).
+Proof.
+  assert (E : conv fuel cd (XRecord attrs o) =
+              sdo a <- (fix goa (l : list (str * (tyx * bool))) : sres attrs_ty :=
+                          match l with
+                          | [] => SOk []
+                          | (k, (a, r)) :: l' => sdo x <- conv fuel cd a; sdo rest <- goa l'; SOk ((k, (x, r)) :: rest)
+                          end) attrs;
+              SOk (TRecord (sort_assoc a) o)).
+  { destruct fuel; reflexivity. }
+  rewrite E.
+  match goal with |- sbind (?G attrs) _ = _ =>
+    assert (HG : G attrs = conv_attrs fuel cd attrs);
+      [ clear E; induction attrs as [|[k [a r]] l IH]; [reflexivity | cbn [conv_attrs]; rewrite <- IH; reflexivity] | ]
+  end.
+  rewrite HG. reflexivity.
+Qed.
+
+(* ---- side conditions *)
+(* no must-be-entity reference (already qualified) names a common type, and every record is closed (the Cedar
+   syntax has no `additionalAttributes`) *)
+Fixpoint ent_ok (cd : list (name * tyx)) (t : tyx) : bool :=
+  match t with
+  | XEntity n => match assoc_name n cd with None => true | Some _ => false end
+  | XSet e => ent_ok cd e
+  | XRecord attrs o =>
+      negb o &&
+      (fix go (l : list (str * (tyx * bool))) : bool :=
+         match l with [] => true | (_, (a, _)) :: l' => ent_ok cd a && go l' end) attrs
+  | _ => true
+  end.
+
+(* the common-type definitions of the translated fragment, relative to those of the original: every body is kept
+   or rewritten by `cedar_form`; nothing is added; the `__cedar` definitions are there *)
+Record cd_rel (cd cd' : list (name * tyx)) : Prop := mkCdRel {
+  rel_some : forall n b, assoc_name n cd = Some b ->
+                         exists b', assoc_name n cd' = Some b' /\ (b' = b \/ b' = cedar_form b);
+  rel_none : forall n, assoc_name n cd = None -> assoc_name n cd' = None;
+  rel_prim : forall p, assoc_name [cedar_id; prim_name p] cd' = Some (XPrim p);
+  rel_ext : forall n, mem_str n ext_names = true -> assoc_name [cedar_id; n] cd' = Some (XExt n);
+  rel_ent : forall n b, assoc_name n cd = Some b -> ent_ok cd b = true
+}.
+
+Definition conv_preserved (cd cd' : list (name * tyx)) (fuel : nat) : Prop :=
+  forall q r, ent_ok cd q = true -> conv fuel cd q = SOk r ->
+              conv (S fuel) cd' q = SOk r /\ conv (S fuel) cd' (cedar_form q) = SOk r.
+
+Lemma conv_attrs_preserved cd cd' fuel attrs :
+  forall ra,
+    (fix go (l : list (str * (tyx * bool))) : bool :=
+       match l with [] => true | (_, (a, _)) :: l' => ent_ok cd a && go l' end) attrs = true ->
+    conv_attrs fuel cd attrs = SOk ra ->
+    (forall k a r, In (k, (a, r)) attrs -> forall x, ent_ok cd a = true -> conv fuel cd a = SOk x ->
+                   conv (S fuel) cd' a = SOk x /\ conv (S fuel) cd' (cedar_form a) = SOk x) ->
+    conv_attrs (S fuel) cd' attrs = SOk ra /\
+    conv_attrs (S fuel) cd'
+      ((fix go (l : list (str * (tyx * bool))) : list (str * (tyx * bool)) :=
+          match l with [] => [] | (k, (a, r)) :: l' => (k, (cedar_form a, r)) :: go l' end) attrs) = SOk ra.
+Proof.
+  induction attrs as [|[k [a r]] l IH]; intros ra Hok Hc Hel.
+  - cbn [conv_attrs] in *. split; exact Hc.
+  - simpl in Hok. apply Bool.andb_true_iff in Hok. destruct Hok as [Ha Hl].
+    cbn [conv_attrs] in Hc.
+    destruct (conv fuel cd a) as [x|e] eqn:Ea; [|discriminate Hc]. cbn [sbind] in Hc.
+    destruct (conv_attrs fuel cd l) as [rest|e] eqn:El; [|discriminate Hc]. cbn [sbind] in Hc.
+    destruct (Hel k a r (or_introl eq_refl) x Ha Ea) as [H1 H2].
+    destruct (IH rest Hl eq_refl (fun k' a' r' Hin => Hel k' a' r' (or_intror Hin))) as [H3 H4].
+    split.
+    + cbn [conv_attrs]. rewrite H1. cbn [sbind]. rewrite H3. exact Hc.
+    + cbn [conv_attrs]. rewrite H2. cbn [sbind]. rewrite H4. exact Hc.
+Qed.
+
+Lemma sbind_ok {A B} (r : sres A) (f : A -> sres B) (b : B) :
+  sbind r f = SOk b -> exists a, r = SOk a /\ f a = SOk b.
+Proof. destruct r as [a|e]; cbn [sbind]; intros H; [exists a; split; [reflexivity|exact H] | discriminate H]. Qed.
+
+(* one step: if conversion is preserved for every smaller fuel, it is preserved for this fuel *)
+Lemma conv_preserved_step cd cd' :
+  cd_rel cd cd' ->
+  forall fuel, (forall f, fuel = S f -> conv_preserved cd cd' f) -> conv_preserved cd cd' fuel.
+Proof.
+  intros R fuel IHf. unfold conv_preserved.
+  assert (JUMP : forall n b r, assoc_name n cd = Some b ->
+                   match fuel with O => SErr SOutOfFuel | S f => conv f cd b end = SOk r ->
+                   exists b', assoc_name n cd' = Some b' /\ conv fuel cd' b' = SOk r).
+  { intros n b r Hn Hc. destruct fuel as [|f]; [discriminate Hc|].
+    destruct (rel_some _ _ R n b Hn) as [b' [Hb' Hor]]. exists b'. split; [exact Hb'|].
+    destruct (IHf f eq_refl b r (rel_ent _ _ R n b Hn) Hc) as [H1 H2].
+    destruct Hor as [E|E]; subst b'; assumption. }
+  fix IHq 1. intros q r Hok Hc. destruct q as [p|n|e|attrs o|n|n|n]; cbn [cedar_form].
+  - (* XPrim *)
+    rewrite conv_prim in Hc. split; [rewrite conv_prim; exact Hc|].
+    rewrite conv_eoc, (rel_prim _ _ R p), conv_prim. exact Hc.
+  - (* XExt *)
+    rewrite conv_ext in Hc. split; [rewrite conv_ext; exact Hc|].
+    destruct (mem_str n ext_names) eqn:E; [|discriminate Hc].
+    rewrite conv_eoc, (rel_ext _ _ R n E), conv_ext, E. exact Hc.
+  - (* XSet *)
+    rewrite conv_set in Hc. destruct (sbind_ok _ _ _ Hc) as [x [Hx Hr]].
+    cbn [ent_ok] in Hok. destruct (IHq e x Hok Hx) as [H1 H2].
+    split; rewrite conv_set; [rewrite H1 | rewrite H2]; exact Hr.
+  - (* XRecord *)
+    rewrite conv_record in Hc. destruct (sbind_ok _ _ _ Hc) as [ra [Hra Hr]].
+    cbn [ent_ok] in Hok. apply Bool.andb_true_iff in Hok. destruct Hok as [Ho Hok].
+    apply Bool.negb_true_iff in Ho. subst o.
+    assert (HA : conv_attrs (S fuel) cd' attrs = SOk ra /\
+                 conv_attrs (S fuel) cd'
+                   ((fix go (l : list (str * (tyx * bool))) : list (str * (tyx * bool)) :=
+                       match l with [] => [] | (k, (a, r)) :: l' => (k, (cedar_form a, r)) :: go l' end) attrs) = SOk ra).
+    { clear Hc Hr. revert ra Hok Hra.
+      induction attrs as [|[k [a r0]] l IHl]; intros ra Hok Hra.
+      - cbn [conv_attrs] in *. split; exact Hra.
+      - simpl in Hok. apply Bool.andb_true_iff in Hok. destruct Hok as [Ha Hl].
+        cbn [conv_attrs] in Hra.
+        destruct (sbind_ok _ _ _ Hra) as [x [Hx Hra']].
+        destruct (sbind_ok _ _ _ Hra') as [rest [Hrest Hra'']].
+        destruct (IHq a x Ha Hx) as [H1 H2].
+        destruct (IHl rest Hl Hrest) as [H3 H4].
+        split; cbn [conv_attrs]; [rewrite H1 | rewrite H2]; cbn [sbind]; [rewrite H3 | rewrite H4]; exact Hra''. }
+    destruct HA as [H1 H2].
+    split; rewrite conv_record; [rewrite H1 | rewrite H2]; exact Hr.
+  - (* XEntity: after the trip it is an entity-or-common reference; it names no common type *)
+    rewrite conv_entity in Hc. split; [rewrite conv_entity; exact Hc|].
+    cbn [ent_ok] in Hok. destruct (assoc_name n cd) eqn:E; [discriminate Hok|].
+    rewrite conv_eoc, (rel_none _ _ R n E). exact Hc.
+  - (* XCommon *)
+    rewrite conv_common in Hc. destruct (assoc_name n cd) as [b|] eqn:E; [|discriminate Hc].
+    destruct (JUMP n b r E Hc) as [b' [Hb' Hcb']].
+    split; [rewrite conv_common | rewrite conv_eoc]; rewrite Hb'; exact Hcb'.
+  - (* XEoc *)
+    rewrite conv_eoc in Hc. destruct (assoc_name n cd) as [b|] eqn:E.
+    + destruct (JUMP n b r E Hc) as [b' [Hb' Hcb']].
+      split; rewrite conv_eoc, Hb'; exact Hcb'.
+    + split; rewrite conv_eoc, (rel_none _ _ R n E); exact Hc.
+Qed.
+
+Lemma conv_preserved_all cd cd' : cd_rel cd cd' -> forall fuel, conv_preserved cd cd' fuel.
+Proof.
+  intros R. induction fuel as [|f IH].
+  - apply (conv_preserved_step cd cd' R). intros f E. discriminate E.
+  - apply (conv_preserved_step cd cd' R). intros f' E. injection E as E. subst f'. exact IH.
+Qed.
+
+(* ---- qualification commutes with `cedar_form` *)
+Fixpoint exts_known (t : tyx) : bool :=
+  match t with
+  | XExt n => mem_str n ext_names
+  | XSet e => exts_known e
+  | XRecord attrs _ =>
+      (fix go (l : list (str * (tyx * bool))) : bool :=
+         match l with [] => true | (_, (a, _)) :: l' => exts_known a && go l' end) attrs
+  | _ => true
+  end.
+
+Definition builtins_defined (cdefs : list name) : Prop :=
+  (forall p, mem_name [cedar_id; prim_name p] cdefs = true) /\
+  (forall n, mem_str n ext_names = true -> mem_name [cedar_id; n] cdefs = true).
+
+Lemma qual_ty_cedar_form cdefs edefs ns :
+  builtins_defined cdefs ->
+  forall t, refs_free cdefs edefs ns t = true -> exts_known t = true ->
+            qual_ty cdefs edefs ns (cedar_form t) = option_map cedar_form (qual_ty cdefs edefs ns t).
+Proof.
+  intros [HP HE].
+  fix IH 1. intros t. destruct t as [p|n|e|attrs o|n|n|n]; cbn [cedar_form refs_free exts_known qual_ty]; intros H HX.
+  - unfold resolve_name, possibilities. cbn [is_unqualified resolve_in]. rewrite (HP p). reflexivity.
+  - unfold resolve_name, possibilities. cbn [is_unqualified resolve_in]. rewrite (HE n HX). reflexivity.
+  - rewrite (IH e H HX). destruct (qual_ty cdefs edefs ns e); reflexivity.
+  - match goal with |- option_map _ ?X = option_map _ (option_map _ ?Y) =>
+      assert (HA : X = option_map (fix go (l : list (str * (tyx * bool))) : list (str * (tyx * bool)) :=
+                                     match l with [] => [] | (k, (a, r)) :: l' => (k, (cedar_form a, r)) :: go l' end) Y)
+    end.
+    { induction attrs as [|[k [a r]] l IHl]; [reflexivity|].
+      simpl in H, HX |- *.
+      apply Bool.andb_true_iff in H. destruct H as [Ha Hl].
+      apply Bool.andb_true_iff in HX. destruct HX as [HXa HXl].
+      rewrite (IH a Ha HXa), (IHl Hl HXl).
+      destruct (qual_ty cdefs edefs ns a); [|reflexivity]. simpl.
+      lazymatch goal with |- context [option_map _ (?G l)] => destruct (G l) end; reflexivity. }
+    rewrite HA.
+    lazymatch goal with |- context [option_map _ (option_map _ (?G attrs))] => destruct (G attrs) end; reflexivity.
+  - destruct (reference_form_insensitive cdefs edefs ns n) as [He _].
+    rewrite (He (forallb_negb_false _ _ H)).
+    destruct (resolve_name REntity cdefs edefs ns n); reflexivity.
+  - destruct (reference_form_insensitive cdefs edefs ns n) as [_ Hc].
+    rewrite (Hc (forallb_negb_false _ _ H)).
+    destruct (resolve_name RCommon cdefs edefs ns n); reflexivity.
+  - destruct (resolve_name RBoth cdefs edefs ns n); reflexivity.
+Qed.
+
+(* ---- the round trip of one type expression through the Cedar syntax *)
+Lemma cedar_roundtrip_type :
+  forall cdefs edefs ns cd cd' fuel t q r,
+    builtins_defined cdefs -> cd_rel cd cd' ->
+    refs_free cdefs edefs ns t = true -> exts_known t = true ->
+    qual_ty cdefs edefs ns t = Some q -> ent_ok cd q = true -> conv fuel cd q = SOk r ->
+    exists q', qual_ty cdefs edefs ns (cedar_form t) = Some q' /\ conv (S fuel) cd' q' = SOk r.
+Proof.
+  intros cdefs edefs ns cd cd' fuel t q r HB R Hfree Hext Hq Hok Hc.
+  exists (cedar_form q). split.
+  - rewrite (qual_ty_cedar_form cdefs edefs ns HB t Hfree Hext), Hq. reflexivity.
+  - exact (proj2 (conv_preserved_all cd cd' R fuel q r Hok Hc)).
+Qed.
+
+(* second refutation: the implicit entity type NS::Action against a common type `Action` of the same namespace —
+   not a collision between DECLARED names, so even a collision test over all namespaces misses it *)
+Definition action_collision_witness : fragment :=
+  [mkNs [s2str "NS"] [(s2str "Action", XPrim PLong)]
+        [(s2str "U", EStd [] (XRecord [(s2str "a", (XEntity [s2str "Action"], true))] false) None)]
+        [(s2str "act", mkActDecl None None)]].
+
+Lemma cedar_roundtrip_refuted_action :
+  exists f' s s',
+    cedar_roundtrip action_collision_witness = Some f' /\ resolve action_collision_witness = SOk s /\
+    resolve f' = SOk s' /\ s <> s'.
+Proof.
+  eexists. eexists. eexists.
+  split; [vm_compute; reflexivity|].
+  split; [vm_compute; reflexivity|].
+  split; [vm_compute; reflexivity|].
+  intro H. discriminate H.
+Qed.
+
+(* non-vacuity of cd_rel: the definitions of the `__cedar` namespace are related to themselves *)
+Definition builtin_cd : list (name * tyx) := map (fun c => (fst c, snd (snd c))) builtin_commons.
+
+From Cedar Require Import ValueProofs.
+
+Lemma cd_rel_builtin : cd_rel builtin_cd builtin_cd.
+Proof.
+  constructor.
+  - intros n b H. exists b. split; [exact H | left; reflexivity].
+  - intros n H. exact H.
+  - intros p. destruct p; reflexivity.
+  - intros n H. unfold mem_str, ext_names in H. cbn [map existsb] in H.
+    repeat (apply Bool.orb_true_iff in H; destruct H as [H|H]);
+      try discriminate H; apply str_eqb_eq in H; subst n; reflexivity.
+  - intros n b H. unfold builtin_cd, builtin_commons in H. cbn in H.
+    repeat match type of H with
+           | (if ?c then _ else _) = _ => destruct c; [inversion H; reflexivity|]
+           end.
+    discriminate H.
+Qed.
